@@ -30,6 +30,7 @@ SWEEP_TRUSTED = {
 }
 CLAUSE = CLAUSE + (" Block moves inside a row of predicted services stay inside the row; the sampling-point array is resized "
                    "after new sampling parameters are installed, not before.")
+CLAUSE = CLAUSE + (' (RF-LIN) the stored CRI search limit satisfies cri_samples + sample_offset + data_samples <= samples_per_line as a linear inequality over the stored expression; each case of the payload format switch that writes through the output pointer leaves the switch (the payload is copied once); the buffer test does not round the payload down.')
 NOT_DECIDED = ("whether the search limit is arithmetically sufficient (8.8 fixed-point phase/step arithmetic, the low-pass slicer's "
                "16-sample window, reads of r + bpp at the last payload bit): a relational numeric fact, outside static analysis "
                "without a solver; reads of the image as such (values).")
